@@ -3,8 +3,8 @@
                     (pd I32 I32L ((k v) ...))   I32 = 0|1 ("i32" key present), I32L = () | ((id ...))
    (c_to_bytes CAP v) -> (ok #bytes) | (exc) | (oob)      (c_ser v) -> (ok #bytes) | (exc)
    (c_from_buffer #bytes) -> (ok v RESTLEN) | (none)       (c_dict_eq v v) -> 0|1                   *)
-From Coq Require Import NArith ZArith List String Bool.
-From Pq Require Import Base.Bytes Extract.Sx Thrift.Compact Impl.CThrift.
+From Coq Require Import NArith ZArith List String Ascii Bool.
+From Pq Require Import Base.Bytes Extract.Sx Thrift.Compact Thrift.Idl Thrift.IdlPinned Impl.CThrift Impl.CThriftTyped.
 Import ListNotations.
 Open Scope string_scope.
 
@@ -105,6 +105,18 @@ Definition h_c_dict_eq (a : list sx) : sx :=
   | _ => err "arity"
   end.
 
+(* (c_typed_ok STRUCT v) -> 0|1 : Impl/CThriftTyped.v typed_ok against the pinned IDL *)
+Fixpoint str_of_bytes (l : list N) : string :=
+  match l with [] => EmptyString | b :: r => String (ascii_of_N b) (str_of_bytes r) end.
+Definition h_c_typed_ok (a : list sx) : sx :=
+  match a with
+  | [n; v] => match as_bytes n, pv_of_sx v with
+              | Some n, Some v => sbool (typed_ok pinned 64 (FStruct (str_of_bytes n)) 0 v)
+              | _, _ => err "args"
+              end
+  | _ => err "arity"
+  end.
+
 Definition table : list (string * handler) :=
   [("c_to_bytes", h_c_to_bytes); ("c_ser", h_c_ser); ("c_from_buffer", h_c_from_buffer);
-   ("c_dict_eq", h_c_dict_eq)].
+   ("c_dict_eq", h_c_dict_eq); ("c_typed_ok", h_c_typed_ok)].
